@@ -600,9 +600,8 @@ func writeDoc(text []byte) (string, error) {
 }
 
 type verdict struct {
-	discard  string // non-empty: the document is outside the precondition
-	classes  []string
-	excluded []string // open findings whose class was met (sub-check "rejections")
+	discard string // non-empty: the document is outside the precondition
+	classes []string
 }
 
 func (v *verdict) class(format string, a ...interface{}) {
